@@ -98,9 +98,11 @@ Clause(o, op, ev) ==
     [] "vals" \notin exp.free /\ \E i \in 1..Len(exp.vals) : ~AliasOK(o, exp, ev, i) -> "return-identity"
     [] "upd" \notin exp.free /\ \E id \in DOMAIN o : ~okObj(id) -> "post-state"
     [] \E i \in 1..Len(ev.out.vals) :
-         /\ i <= Len(ev.out.ids) /\ ev.out.ids[i] \in PostIds(ev) /\ IsVObj(ev.out.vals[i])
+         /\ i <= Len(ev.out.ids) /\ ev.out.ids[i] \in PostIds(ev) /\ IsNewObjVal(ev.out.vals[i])
          /\ LET r == ev.post[ev.out.ids[i]]  g == ev.out.vals[i] IN
-            r.v # SubSeq(g, 5, Len(g)) \/ r.p # g[3] \/ r.c # CodeCls(g[2]) -> "returned-object-state"
+            \/ r.v # SubSeq(g, 5, Len(g))
+            \/ IsVObj(g) /\ (r.p # g[3] \/ r.c # CodeCls(g[2]))
+            \/ ~IsVObj(g) /\ r.c # "Array" -> "returned-object-state"
     [] "upd" \notin exp.free /\ "vals" \notin exp.free
          /\ PostIds(ev) \ DOMAIN o # {ev.out.ids[i] : i \in fresh} -> "new-objects"
     [] exp.arr # <<>> /\ \E i \in fresh : ev.post[ev.out.ids[i]].c # "Array" \/ ev.post[ev.out.ids[i]].dn # exp.arr[1]
